@@ -138,8 +138,11 @@ func c15Recursive(r *mon.Rng) *model.Schema {
 }
 
 // c15Keys: keys containing quotes, backslashes, control characters and non-ASCII.
+// c15RawMarker (a private-use character) is replaced by the single byte 0xE9 in the rendered text.
+const c15RawMarker = "\uE000"
+
 func c15Keys(r *mon.Rng) *model.Schema {
-	keys := []string{"a\"b", "back\\slash", "tab\there", "nl\nx", "é", "日本", "𝄞", "", " ", "a/b", "\u0001", "q\"\\\"", "ü\"", "{", "}", ":", ","}
+	keys := []string{"caf" + c15RawMarker, c15RawMarker + c15RawMarker + "x", "a\"b", "back\\slash", "tab\there", "nl\nx", "é", "日本", "𝄞", "", " ", "a/b", "\u0001", "q\"\\\"", "ü\"", "{", "}", ":", ","}
 	mon.Shuffle(r, keys)
 	o := model.Obj()
 	for _, k := range keys[:r.Range(1, 5)] {
@@ -231,6 +234,14 @@ func c15Run(c *mon.Ctx, unit int) {
 		}
 		s.OptKeys = r.Chance(1, 8)
 		sp := specOf(s, model.Style{})
+		rawBytes := false
+		if strings.Contains(sp.Text, c15RawMarker) {
+			// a key written in a foreign encoding: bytes that are not UTF-8 (the schema file was
+			// saved as Latin-1); whatever key Example writes for it, the schema must accept
+			sp.Text = strings.ReplaceAll(sp.Text, c15RawMarker, "\xe9")
+			rawBytes = true
+			c.Count("schemas with a key holding bytes that are not UTF-8", 1)
+		}
 		sch, bo := lib.Build(sp)
 		if !bo.OK {
 			c.Count("schemas whose construction failed (skipped)", 1)
@@ -249,6 +260,19 @@ func c15Run(c *mon.Ctx, unit int) {
 		exb, eo := lib.SafeVal(sch.Example)
 		ex := string(exb) // copy at return time
 		c.Eval(1)
+		if eo.OK && len(exb) > 0 && k%3 == 0 {
+			// the returned bytes belong to the caller: writing into them (buffer reuse) must not
+			// change what the next call returns
+			for i := range exb {
+				exb[i] = 'X'
+			}
+			again, ao := lib.SafeVal(sch.Example)
+			c.Count("Example() called again after the caller overwrote the returned bytes", 1)
+			if !ao.OK || string(again) != ex {
+				c.Violate("example-again", c15Case{sp}, ex, string(again)+" "+ao.String(), "the second Example() differs after the caller wrote into the bytes the first one returned ("+class+")")
+				continue
+			}
+		}
 		if eo.Panic != "" {
 			c.Violate("panic", c15Case{sp}, "no panic", eo.String(), "Example panicked")
 			continue
@@ -288,7 +312,7 @@ func c15Run(c *mon.Ctx, unit int) {
 			c.Violate("example", c15Case{sp}, "well-formed JSON accepted by the schema", "rejected by a fresh schema: "+vo.String()+" example: "+ex, "Validate rejects the schema's own Example ("+class+")")
 			continue
 		}
-		if isPlain(s) {
+		if isPlain(s) && !rawBytes {
 			want := gen.ExampleVal(s.Root).Text()
 			// literals byte-identical: rebuild the expected text from the literals as written
 			want = plainExampleText(s.Root)
@@ -373,6 +397,23 @@ func init() {
 		Run:         c15Run,
 		Replay: map[string]func(json.RawMessage) string{
 			"example": c15Replay,
+			"example-again": func(raw json.RawMessage) string {
+				var cs c15Case
+				json.Unmarshal(raw, &cs)
+				sch, bo := lib.Build(cs.Spec)
+				if !bo.OK {
+					return bo.String()
+				}
+				b, o := lib.SafeVal(sch.Example)
+				if !o.OK {
+					return o.String()
+				}
+				for i := range b {
+					b[i] = 'X'
+				}
+				b2, o2 := lib.SafeVal(sch.Example)
+				return string(b2) + " " + o2.String()
+			},
 			"cutoff-known": func(raw json.RawMessage) string {
 				var m struct {
 					Witness lib.Spec `json:"witness"`
